@@ -15,19 +15,25 @@ import (
 
 func init() { reg.Register("route.complete", runComplete) }
 
-// item alphabet of the bounded-exhaustive space (DESIGN 3.C03)
+// item alphabet of the bounded-exhaustive space (DESIGN 3.C03). The thorough tier adds "A", the
+// upper-case twin of "a": patterns in which a literal recurs in another letter case.
 var cItems = []string{"a", "b", "ab", "/", "-", ".", ":", ":?", "*", "+"}
 
-const cNumItems = 10
+func enumItems(e *ev.Env) []string {
+	if e.Quick() {
+		return cItems
+	}
+	return append(append([]string(nil), cItems...), "A")
+}
 
 // decodePattern turns an index into a pattern of exactly n items; ok=false if the item string
 // is outside the delimited class (a parameter must be followed by end-of-pattern or a literal
 // starting with '/', '-' or '.').
-func decodeItems(idx, n int) []string {
+func decodeItems(items []string, idx, n int) []string {
 	its := make([]string, n)
 	for i := 0; i < n; i++ {
-		its[i] = cItems[idx%cNumItems]
-		idx /= cNumItems
+		its[i] = items[idx%len(items)]
+		idx /= len(items)
 	}
 	return its
 }
@@ -435,6 +441,31 @@ func (cr *completeRunner) checkFilling(vals []string) {
 	}
 }
 
+// caseTwin flips the case of one or all ASCII letters of s ("" if s has none or does not start
+// with a delimiter).
+func caseTwin(r *gen.Rand, s string) string {
+	if s == "" || (s[0] != '/' && s[0] != '-' && s[0] != '.') {
+		return ""
+	}
+	b := []byte(s)
+	var letters []int
+	for i := range b {
+		if b[i] >= 'a' && b[i] <= 'z' || b[i] >= 'A' && b[i] <= 'Z' {
+			letters = append(letters, i)
+		}
+	}
+	if len(letters) == 0 {
+		return ""
+	}
+	if r.Bool() {
+		letters = []int{gen.Pick(r, letters)}
+	}
+	for _, i := range letters {
+		b[i] ^= 0x20
+	}
+	return string(b)
+}
+
 func onoff(b bool, on, off string) string {
 	if b {
 		return on
@@ -548,6 +579,8 @@ func runComplete(e *ev.Env) {
 		}
 	})
 	maxItems := e.N(5, 6)
+	items := enumItems(e)
+	cNumItems := len(items)
 	total := 0
 	pow := 1
 	for n := 1; n <= maxItems; n++ {
@@ -563,7 +596,7 @@ func runComplete(e *ev.Env) {
 			n++
 			p *= cNumItems
 		}
-		pat, ok := itemsToPattern(decodeItems(i, n))
+		pat, ok := itemsToPattern(decodeItems(items, i, n))
 		if !ok {
 			e.Stat("enum_outside_class", 1)
 			return
@@ -596,7 +629,7 @@ func runComplete(e *ev.Env) {
 		}
 	})
 	e.Stat("enum_space_complete", 1)
-	e.Note("enum_bound", fmt.Sprintf("all item strings of length 1..%d over %v inside the delimited class x all legal fillings over %q x 8 configs", maxItems, cItems, cVals))
+	e.Note("enum_bound", fmt.Sprintf("all item strings of length 1..%d over %v inside the delimited class x all legal fillings over %q x 8 configs", maxItems, items, cVals))
 
 	// random larger patterns
 	e.Cases("random", e.N(100000, 2000000), func(c *ev.Case) {
@@ -628,6 +661,28 @@ func runComplete(e *ev.Env) {
 					l = gen.Pick(r, lits)
 				}
 				toks = append(toks, tok{Kind: tLit, Lit: l})
+			}
+		}
+		// the literal that follows a greedy parameter comes back later in the pattern, behind a
+		// further parameter, in another letter case ("/*/a/:x/A", "/+.Tar/:b.tar")
+		if r.Chance(1, 6) {
+			for i := 0; i+1 < len(toks); i++ {
+				if (toks[i].Kind == tStar || toks[i].Kind == tPlus) && toks[i+1].Kind == tLit && r.Chance(1, 2) {
+					tw := caseTwin(r, strings.TrimRight(toks[i+1].Lit, "/"))
+					if tw == "" {
+						continue
+					}
+					if toks[len(toks)-1].Kind != tLit {
+						toks = append(toks, tok{Kind: tLit, Lit: gen.Pick(r, []string{"/", "-", "."})})
+					}
+					nn++
+					toks = append(toks, tok{Kind: []int{tNamed, tNamedOpt, tPlus}[r.PickW(60, 20, 20)], Name: "x" + strconv.Itoa(nn)}, tok{Kind: tLit, Lit: tw})
+					if toks[len(toks)-2].Kind == tPlus {
+						toks[len(toks)-2].Name = ""
+					}
+					e.Stat("random_patterns_with_case_twin_of_the_literal_behind_a_greedy_parameter", 1)
+					break
+				}
 			}
 		}
 		pat := pattern{Toks: toks}
